@@ -182,6 +182,10 @@ func (c *codecTr) typeOf(e ast.Expr, env map[string]string) string {
 			return "int"
 		}
 		switch expr(x.Fun) {
+		case "yamlFloat": // notes/proposed_fix_C15.patch: a float64 handed on unchanged (negative zero as tagged scalar)
+			if len(x.Args) == 1 && c.typeOf(x.Args[0], env) == "float64" {
+				return "float64"
+			}
 		case "network.NeuronTypeName":
 			return "neuronTypeName"
 		case "math.NodeActivators.ActivationNameFromType":
@@ -609,7 +613,9 @@ func (c *codecTr) yamlWriterKeys(name string) []ykey {
 						key, _ := strconv.Unquote(lit.Value)
 						ty := c.typeOf(x.Rhs[0], env)
 						if id, ok := x.Rhs[0].(*ast.Ident); ok {
-							if enc, ok := listOf[id.Name]; ok {
+							if enc, ok := listOf[id.Name]; ok && enc == "[]float64" {
+								ty = enc
+							} else if ok {
 								ty = "list:" + enc
 							} else if m, ok := env[id.Name]; ok && strings.HasPrefix(m, "map:") {
 								ty = m
@@ -622,6 +628,10 @@ func (c *codecTr) yamlWriterKeys(name string) []ykey {
 					if call, ok := x.Rhs[0].(*ast.CallExpr); ok {
 						if sel, ok := call.Fun.(*ast.SelectorExpr); ok {
 							listOf[expr(ix.X)] = sel.Sel.Name
+							continue
+						}
+						if c.typeOf(call, env) == "float64" { // params[i] = yamlFloat(p)
+							listOf[expr(ix.X)] = "[]float64"
 							continue
 						}
 					}
